@@ -122,6 +122,10 @@ class ElabPass:
             return self.fail(msg)
         self.CLASS_LEVEL_CACHE.pending.add(module)
 
+        # From its first visit by an elaboration pass on, a module takes additions from the passes only.
+        # (Their results are cached per pass, so anything the designer added later would skip the passes already run.)
+        module._elaboration_started = True
+
         try:
             # Depth-first traverse instances, ensuring their targets are defined
             for inst in module.instances.values():
@@ -136,7 +140,11 @@ class ElabPass:
                 self.elaborate_bundle_instance(bundle)
 
             # Run the pass-specific `elaborate_module`
-            result = self.elaborate_module(module)
+            module._elaboration_open = True
+            try:
+                result = self.elaborate_module(module)
+            finally:
+                module._elaboration_open = False
 
         except BaseException as e:
             # Elaboration failed, in this module or something it instantiates.
